@@ -6,8 +6,11 @@
 From Coq Require Import String ZArith List Bool.
 Import ListNotations.
 From Verif Require Import Base.PyValue Base.Decimal Model.Eval Model.Order Model.Exec Model.Typing
-     Model.TypingCasts Proofs.AggProofs Proofs.TypingProofs Proofs.TypingCastsProofs.
+     Model.TypingCasts Proofs.AggProofs Proofs.TypingProofs Proofs.TypingCastsProofs Proofs.TypingCoverage.
 From Verif Require Proofs.RegistryTie.
+(* the tie by translation of types.function_lookup (last theorem of this file); required in the header so that coqdep
+   records the dependency on the generated file (see harness/PYMINI.md) *)
+From Verif Require Model.Compile Model.PyMini Model.PrimsApi Model.PrimsCompiler Gen.SrcLookup Proofs.SrcLookup.
 Open Scope Z_scope.
 
 (* Every accepted expression evaluates, on every row that conforms to the declared column types (and
@@ -173,9 +176,65 @@ Theorem C04_func_overloads : func_table =
     (FSafediv, [TDec; TInt], TDec); (FSafediv, [TDec; TDec], TDec); (FSafediv, [TDec; TBool], TDec);
     (FLength, [TStr], TInt); (FUpper, [TStr], TStr); (FLower, [TStr], TStr)]
    ++ map (fun a => (FBool, [a], TBool)) all_ty
-   ++ [(FIntOfDec, [TDec], TInt); (FDecOfInt, [TInt], TDec); (FSubstr, [TStr; TInt; TInt], TStr)])%list.
+   ++ [(FIntOfDec, [TDec], TInt); (FDecOfInt, [TInt], TDec); (FSubstr, [TStr; TInt; TInt], TStr)]
+   (* the scalar library modelled for C18 (Model/Dates.v, Model/StrFuncs.v), reached through Eval.apply_func: the
+      overloads whose model is total on the declared types; strict types do not reach the object overloads *)
+   ++ [(FYear, [TDate], TInt); (FMonth, [TDate], TInt); (FDay, [TDate], TInt); (FQuarter, [TDate], TStr);
+       (FWeekday, [TDate], TStr); (FDateDiff, [TDate; TDate], TInt); (FDatePart, [TStr; TDate], TInt);
+       (FDateYmd, [TInt; TInt; TInt], TDate)]
+   ++ map (fun a => (FDate, [a], TDate)) [TStr; TDate; TObject; TNone]
+   ++ map (fun a => (FStr, [a], TStr)) all_ty
+   ++ map (fun a => (FInt, [a], TInt)) [TInt; TStr; TBool; TObject; TNone]
+   ++ [(FDecimal, [TDec], TDec); (FDecimal, [TBool], TDec);
+       (FRoot, [TStr; TInt], TStr); (FRoot1, [TStr], TStr); (FParent, [TStr], TStr); (FLeaf, [TStr], TStr);
+       (FRoundInt, [TInt; TInt], TInt); (FRoundInt1, [TInt], TInt)])%list.
 Proof. exact func_table_spec. Qed.
 Print Assumptions C04_func_overloads.
+
+(* Which REGISTERED overloads that table stands for: the signature every row lands on (function_lookup) with the
+   announced output type, computed and compared with the registry snapshot.  35 of the 65 scalar overloads over BQL
+   base types are covered (11 before the C18 library was linked in) ... *)
+Theorem C04_covered_overloads : covered_overloads =
+  [("abs", ["Decimal"], "Decimal"); ("neg", ["Decimal"], "Decimal");
+   ("safediv", ["Decimal"; "int"], "Decimal"); ("safediv", ["Decimal"; "Decimal"], "Decimal");
+   ("length", ["str"], "int"); ("upper", ["str"], "str"); ("lower", ["str"], "str"); ("bool", ["any"], "bool");
+   ("int", ["Decimal"], "int"); ("decimal", ["int"], "Decimal"); ("substr", ["str"; "int"; "int"], "str");
+   ("year", ["date"], "int"); ("month", ["date"], "int"); ("day", ["date"], "int"); ("quarter", ["date"], "str");
+   ("weekday", ["date"], "str"); ("date_diff", ["date"; "date"], "int"); ("date_part", ["str"; "date"], "int");
+   ("date", ["int"; "int"; "int"], "date"); ("date", ["str"], "date"); ("date", ["date"], "date");
+   ("date", ["object"], "date"); ("str", ["any"], "str");
+   ("int", ["int"], "int"); ("int", ["str"], "int"); ("int", ["bool"], "int"); ("int", ["object"], "int");
+   ("decimal", ["Decimal"], "Decimal"); ("decimal", ["bool"], "Decimal");
+   ("root", ["str"; "int"], "str"); ("root", ["str"], "str"); ("parent", ["str"], "str"); ("leaf", ["str"], "str");
+   ("round", ["int"; "int"], "int"); ("round", ["int"], "int")]%string.
+Proof. exact covered_spec. Qed.
+Print Assumptions C04_covered_overloads.
+
+Theorem C04_covered_overloads_registered :
+  forallb (fun c => mem3 c scalar_base_overloads) covered_overloads = true
+  /\ (length scalar_base_overloads, length covered_overloads) = (65, 35)%nat.
+Proof. exact (conj covered_registered coverage_counts). Qed.
+Print Assumptions C04_covered_overloads_registered.
+
+(* ... and these are not (they can raise on well-typed arguments - Eval.eval does not propagate exceptions -, are
+   regular-expression functions, or read the ledger context): the typed model refuses every statement using them *)
+Theorem C04_uncovered_overloads : uncovered_overloads =
+  [("decimal", ["object"], "Decimal"); ("decimal", ["str"], "Decimal");
+   ("round", ["Decimal"; "int"], "Decimal"); ("round", ["Decimal"], "Decimal"); ("repr", ["any"], "str");
+   ("maxwidth", ["str"; "int"], "str"); ("splitcomp", ["str"; "str"; "int"], "str");
+   ("yearmonth", ["date"], "date"); ("today", [], "date");
+   ("grep", ["str"; "str"], "str"); ("grepn", ["str"; "str"; "int"], "str"); ("subst", ["str"; "str"; "str"], "str");
+   ("open_date", ["str"], "date"); ("close_date", ["str"], "date"); ("open_meta", ["str"; "str"], "object");
+   ("meta", ["str"], "object"); ("entry_meta", ["str"], "object"); ("any_meta", ["str"], "object");
+   ("commodity_meta", ["str"; "str"], "object"); ("currency_meta", ["str"; "str"], "object");
+   ("account_sortkey", ["str"], "str"); ("has_account", ["str"], "bool");
+   ("getprice", ["str"; "str"; "date"], "Decimal"); ("getprice", ["str"; "str"], "Decimal");
+   ("possign", ["Decimal"; "str"], "Decimal");
+   ("parse_date", ["str"; "str"], "date"); ("parse_date", ["str"], "date");
+   ("date_add", ["date"; "int"], "date"); ("date_trunc", ["str"; "date"], "date");
+   ("date_bin", ["str"; "date"; "date"], "date")]%string.
+Proof. exact uncovered_spec. Qed.
+Print Assumptions C04_uncovered_overloads.
 
 (* ... and each is sound on its own: value in, value of the declared type out *)
 Theorem C04_unop_sound : forall op a t x,
@@ -194,6 +253,14 @@ Theorem C04_func_sound : forall f ts t vs,
   existsb is_null vs = false -> has_type (apply_func f vs) t = true.
 Proof. exact func_sound. Qed.
 Print Assumptions C04_func_sound.
+
+(* the library clauses in particular: NULL or a value of the announced type, never an exception (neither this
+   model's TypeError nor one of the library's kinds) *)
+Theorem C04_library_sound : forall f ts t vs,
+  func_out f ts = Some t -> Forall2 (fun v a => has_type v a = true) vs ts -> existsb is_null vs = false ->
+  has_type (apply_func f vs) t = true /\ (forall k, apply_func f vs <> VErr k).
+Proof. exact covered_sound. Qed.
+Print Assumptions C04_library_sound.
 
 (* operand combinations without an overload are rejected (type_of = None) *)
 Theorem C04_rejects_untyped :
@@ -225,6 +292,16 @@ Example C04_example_typed :
           (ECoalesce [EBinary BDiv (ECol 0) (EFunc FSafediv [ECol 1; EUnary UNeg (ECol 4)]); EConst (VDec (mkdec false 15 (-1)))])
   = Some TDec.
 Proof. reflexivity. Qed.
+(* date_part('year', d) - year(d) + length(str(x)) over (d date, x Decimal): the library functions are typed *)
+Example C04_example_library :
+  type_of [TDate; TDec] []
+    (EBinary BAdd (EBinary BSub (EFunc FDatePart [EConst (VStr [121; 101; 97; 114]); ECol 0]) (EFunc FYear [ECol 0]))
+                  (EFunc FLength [EFunc FStr [ECol 1]])) = Some TInt
+  /\ eval [VDate 737425; VDec (mkdec false 150 (-2))] []
+       (EBinary BAdd (EBinary BSub (EFunc FDatePart [EConst (VStr [121; 101; 97; 114]); ECol 0]) (EFunc FYear [ECol 0]))
+                     (EFunc FLength [EFunc FStr [ECol 1]])) = VInt 4
+  /\ type_of [TDate] [] (EFunc FDateAdd [ECol 0; EConst (VInt 1)]) = None.
+Proof. repeat split. Qed.
 Example C04_example_conforms : conforms [TInt; TStr] [VInt 3; VNull].
 Proof.
   intros i t H. destruct i as [|[|i]]; simpl in H; [injection H as <-; reflexivity|injection H as <-; reflexivity|].
@@ -247,3 +324,29 @@ Example C04_example_agg :
   /\ exec ex_q [[VStr [120]; VBool true]; [VStr [121]; VNull]; [VStr [120]; VBool true]]
      = [[VStr [120]; VInt 3]; [VStr [121]; VInt 1]].
 Proof. repeat split. repeat constructor. Qed.
+
+(* ================================================================== tie by translation (harness/PYMINI.md)
+   The typing theorems above take the output type of an operator / function from the overload the lookup selects.
+   types.function_lookup, regenerated as a PyMini term from the imported beanquery.types on every run
+   (Gen/SrcLookup.v), returns for EVERY registry, name and operand list exactly the overload - class and position -
+   Compile.function_lookup returns (the first overload in registry order matching the first signature of the product of
+   the operands' bases that has a match), or None.  Same statement as C05_source_function_lookup; encodings and
+   primitive semantics in Model/PrimsCompiler.v; [_bases] is an opaque callable assumed to return Compile.bases_of
+   (discharged for the live classes by C05_source_bases / C05_source_bases_table). *)
+Theorem C04_source_function_lookup :
+  forall (call_ref : nat -> list Verif.Model.PyMini.pv -> Verif.Model.PyMini.pv)
+         (tbl : nat -> Verif.Model.Compile.cnode) (kids : nat -> list nat)
+         (mro : string -> list string) (msg : string -> list Verif.Model.PyMini.pv -> Verif.Model.PyMini.pv)
+         (kb : nat) (reg : list (string * list Verif.Model.Compile.overload)) (name : string) (operands : list nat),
+  Verif.Model.PrimsApi.ref_of Verif.Gen.SrcLookup.refs "beanquery.types._bases"%string = Some kb ->
+  (forall t, call_ref kb [Verif.Model.PrimsApi.PStr t] =
+             Verif.Model.PyMini.PTuple (map Verif.Model.PrimsApi.PStr (Verif.Model.Compile.bases_of t))) ->
+  Verif.Model.PyMini.call_function call_ref (Verif.Model.PrimsCompiler.prim_compiler tbl kids mro msg)
+    Verif.Gen.SrcLookup.types_function_lookup
+    [Verif.Model.PrimsCompiler.enc_registry reg; Verif.Model.PrimsApi.PStr name;
+     Verif.Model.PyMini.PList (map Verif.Model.PrimsCompiler.nref operands)] =
+  Verif.Model.PyMini.Ok
+    (Verif.Proofs.SrcLookup.enc_found
+       (Verif.Model.Compile.function_lookup reg name (map (fun i => Verif.Model.Compile.dtype (tbl i)) operands))).
+Proof. exact Verif.Proofs.SrcLookup.function_lookup_src. Qed.
+Print Assumptions C04_source_function_lookup.
